@@ -5,10 +5,11 @@ from .sym import strip_all_generics, trait_method
 
 
 class CallSite:
-    __slots__ = ("caller", "block", "declared", "target", "local", "term", "fj")
+    __slots__ = ("caller", "block", "declared", "target", "local", "term", "fj", "real_caller")
 
     def __init__(self, caller, block, declared, target, local, term, fj):
         self.caller = caller
+        self.real_caller = caller
         self.block = block
         self.declared = declared
         self.target = target
@@ -85,7 +86,7 @@ class CallGraph:
         the sites that call that helper (transitively): who-may-call rules then see the known function on whose behalf the
         helper runs."""
         sites = self.callers.get(fid, [])
-        if raw or not getattr(self.fx, "new_helpers", None):
+        if raw:
             return sites
         _seen = _seen or set()
         out = []
@@ -94,6 +95,11 @@ class CallGraph:
             if r in self.fx.new_helpers and r not in _seen:
                 up = self.callers_of(r, _seen=_seen | {r})
                 out.extend(up if up else [cs])
+            elif r != cs.caller:
+                # a call made inside a closure / coroutine body is made by the enclosing function
+                c2 = CallSite(r, cs.block, cs.declared, cs.target, cs.local, cs.term, cs.fj)
+                c2.real_caller = cs.caller
+                out.append(c2)
             else:
                 out.append(cs)
         return out
